@@ -1,0 +1,21 @@
+//go:build verif
+
+package lossy
+
+// VerifRowSync exposes the row-pipeline wait/signal primitive for stress tests.
+type VerifRowSync struct{ rs *rowSync }
+
+// VerifNewRowSync creates the synchronisation state for n rows.
+func VerifNewRowSync(n int) *VerifRowSync { return &VerifRowSync{rs: newRowSync(n)} }
+
+// WaitFor is rowSync.waitFor.
+func (v *VerifRowSync) WaitFor(y int, needed int32) { v.rs.waitFor(y, needed) }
+
+// Signal is rowSync.signal.
+func (v *VerifRowSync) Signal(y int, done int32) { v.rs.signal(y, done) }
+
+// Reset clears the progress counter of row y (as getParallelState does on reuse).
+func (v *VerifRowSync) Reset(y int) { v.rs.rows[y].done.Store(0) }
+
+// Waiters returns the current waiter count of row y.
+func (v *VerifRowSync) Waiters(y int) int32 { return v.rs.rows[y].waiters.Load() }
